@@ -71,13 +71,16 @@ PprmCubes(n, f) == {[p |-> AsSet(s, n), q |-> {}] : s \in Anf(n, f)}
 (* C16: reading printed text.  Bytes: 'x' 120, '!' 33, '0' 48, '1' 49, ' ' 32, '^' 94, '|' 124 *)
 IsDigit(b) == b >= 48 /\ b <= 57
 
-\* split s at every occurrence of the 3-byte separator " c " ; returns a sequence of [lo, hi] ranges
-SepStarts(s, c) == {i \in 1..(Len(s) - 2) : s[i] = 32 /\ s[i + 1] = c /\ s[i + 2] = 32}
-Ranges(s, lo, hi, c) ==      \* ranges of s[lo..hi] between separators
-  LET st == {i \in SepStarts(s, c) : i >= lo /\ i + 2 <= hi}
+\* Spaces carry no meaning in the grammar: they are dropped before reading (NoSpaces); the text is
+\* then split at every '^' / '|' byte.  Ranges returns the [lo, hi] ranges of s[lo..hi] between
+\* occurrences of the separator byte c.
+NoSpaces(s) == SelectSeq(s, LAMBDA b : b # 32)
+SepStarts(s, c) == {i \in 1..Len(s) : s[i] = c}
+Ranges(s, lo, hi, c) ==
+  LET st == {i \in SepStarts(s, c) : i >= lo /\ i <= hi}
       k == Cardinality(st)
       nth(j) == CHOOSE i \in st : Cardinality({y \in st : y < i}) = j - 1
-  IN [j \in 1..(k + 1) |-> [lo |-> IF j = 1 THEN lo ELSE nth(j - 1) + 3,
+  IN [j \in 1..(k + 1) |-> [lo |-> IF j = 1 THEN lo ELSE nth(j - 1) + 1,
                              hi |-> IF j = k + 1 THEN hi ELSE nth(j) - 1]]
 
 \* a product term s[lo..hi]: "0", "1", or literals  [!]x<digits>  in sequence
@@ -112,20 +115,73 @@ TermStruct(s, lo, hi) ==
        [lo |-> lo, const |-> "-", pos |-> {t.v : t \in {u \in L : ~u.neg}}, neg |-> {t.v : t \in {u \in L : u.neg}}]
 OrParts(s) == SeqSet(Ranges(s, 1, Len(s), 124))
 XorTerms(s, o) == SeqSet(Ranges(s, o.lo, o.hi, 94))
-TextParses(s) ==
+TextParsesNS(s) ==
   /\ Len(s) >= 1
   /\ \A o \in OrParts(s) : \A x \in XorTerms(s, o) : TermParses(s, x.lo, x.hi)
-ParsedText(s) == {{TermStruct(s, x.lo, x.hi) : x \in XorTerms(s, o)} : o \in OrParts(s)}
+TextParses(t) == TextParsesNS(NoSpaces(t))
+ParsedTextNS(s) == {{TermStruct(s, x.lo, x.hi) : x \in XorTerms(s, o)} : o \in OrParts(s)}
+ParsedText(t) == ParsedTextNS(NoSpaces(t))
 TermTrue(t, M) == IF t.const = "-" THEN t.pos \subseteq M /\ t.neg \cap M = {} ELSE t.const = "1"
 ParsedVal(P, M) == \E part \in P : Cardinality({t \in part : TermTrue(t, M)}) % 2 = 1
 TextFn(s, n) == LET P == ParsedText(s) IN {m \in Dom(n) : ParsedVal(P, AsSet(m, n))}
 \* variables increase inside every product term; in an exclusive cube (XOR of single variables)
 \* they increase along the XOR list too
-TextIncreasing(s) == \A o \in OrParts(s) : \A x \in XorTerms(s, o) : TermIncreasing(s, x.lo, x.hi)
-XorListIncreasing(s) ==      \* for Ecube text: 1 ^ x0 ^ x3 ...
-  LET xs == Ranges(s, 1, Len(s), 94)
+TextIncreasingNS(s) == \A o \in OrParts(s) : \A x \in XorTerms(s, o) : TermIncreasing(s, x.lo, x.hi)
+TextIncreasing(t) == TextIncreasingNS(NoSpaces(t))
+XorListIncreasing(t) ==      \* for Ecube text: 1 ^ x0 ^ x3 ...
+  LET s == NoSpaces(t)
+      xs == Ranges(s, 1, Len(s), 94)
       vars == [k \in 1..Len(xs) |-> IF TermIsConst(s, xs[k].lo, xs[k].hi) THEN 0 - 1
                                      ELSE VarOf(s, xs[k].lo, xs[k].hi)]
   IN \A j, k \in 1..Len(xs) : j < k => vars[j] < vars[k]
+
+-----------------------------------------------------------------------------
+(* Implementation-shaped part: the Sop operations, the Esop sweep and the Display impls as the *)
+(* code performs them (sop.rs, esop.rs, cube.rs, ecube.rs); mc/MC_TwoLevel checks them against  *)
+(* the denotations above.                                                                       *)
+LOCAL SQT == INSTANCE SequencesExt
+MaskLess(A, B) == A # B /\ Max(SymDiff(A, B)) \in B              \* u32 masks compared as numbers
+CubeLess(a, b) == MaskLess(a.p, b.p) \/ (a.p = b.p /\ MaskLess(a.q, b.q))      \* derived Ord on (pos, neg)
+SortCubes(S) == SQT!SortSeq(SQT!SetToSeq(S), CubeLess)
+\* Sop::simplify: drop zero cubes, sort, dedup, drop every cube that implies another one
+SopSimplify(cubes) ==
+  LET S == {c \in SeqSet(cubes) : ~Contradictory(c)}
+  IN SortCubes({c \in S : \A o \in S : c = o \/ ~(o.p \subseteq c.p /\ o.q \subseteq c.q)})
+SopOrK(a, b) == SopSimplify(a \o b)
+SopAndK(a, b) ==
+  SopSimplify(SQT!SetToSeq({CubeAnd(a[i], b[j]) : i \in 1..Len(a), j \in 1..Len(b)} \ {CubeZero}))
+\* !a: product over the cubes of the sum of the complemented literals
+NegCubeSop(c) == SQT!SetToSeq({[p |-> {}, q |-> {v}] : v \in c.p} \cup {[p |-> {v}, q |-> {}] : v \in c.q})
+SopNotK(a) == SQT!FoldLeft(LAMBDA acc, c : SopAndK(acc, NegCubeSop(c)), <<CubeOne>>, a)
+
+\* From<&Lut> for Esop: sweep the assignments upwards; a set bit emits the positive cube and
+\* toggles every strict superset
+EsopSweep(n, f) ==
+  LET step(st, i) ==
+        IF i \in st.lut
+        THEN [lut |-> SymDiff(st.lut, {j \in Dom(n) : j > i /\ SubMask(i, j)}),
+              cubes |-> Append(st.cubes, [p |-> AsSet(i, n), q |-> {}])]
+        ELSE st
+  IN SQT!FoldLeft(step, [lut |-> f, cubes |-> <<>>], [k \in 1..(2^n) |-> k - 1]).cubes
+
+\* Display
+RECURSIVE DecDigits(_)
+DecDigits(k) == IF k < 10 THEN <<48 + k>> ELSE DecDigits(k \div 10) \o <<48 + (k % 10)>>
+CubeText(c) ==
+  IF c = CubeOne THEN <<49>>
+  ELSE IF Contradictory(c) THEN <<48>>
+  ELSE SQT!FoldLeft(LAMBDA acc, v : acc \o (IF v \in c.p THEN <<120>> \o DecDigits(v) ELSE <<>>)
+                                      \o (IF v \in c.q THEN <<33, 120>> \o DecDigits(v) ELSE <<>>),
+                    <<>>, [k \in 1..32 |-> k - 1])
+JoinWith(parts, sep) ==
+  SQT!FoldLeft(LAMBDA acc, k : IF k = 1 THEN parts[1] ELSE acc \o sep \o parts[k], <<>>, [k \in 1..Len(parts) |-> k])
+EcubeText(e) ==
+  IF e.v = {} /\ ~e.x THEN <<48>>
+  ELSE LET vars == SQT!SortSeq(SQT!SetToSeq(e.v), LAMBDA a, b : a < b)
+           parts == (IF e.x THEN << <<49>> >> ELSE <<>>) \o [k \in 1..Len(vars) |-> <<120>> \o DecDigits(vars[k])]
+       IN JoinWith(parts, <<32, 94, 32>>)
+SopText(cubes) == IF cubes = <<>> THEN <<48>> ELSE JoinWith([k \in 1..Len(cubes) |-> CubeText(cubes[k])], <<32, 124, 32>>)
+EsopText(cubes) == IF cubes = <<>> THEN <<48>> ELSE JoinWith([k \in 1..Len(cubes) |-> CubeText(cubes[k])], <<32, 94, 32>>)
+SoesText(ecubes) == IF ecubes = <<>> THEN <<48>> ELSE JoinWith([k \in 1..Len(ecubes) |-> EcubeText(ecubes[k])], <<32, 124, 32>>)
 
 =============================================================================
